@@ -51,13 +51,18 @@ LEVEL_TEXT = ('Generated-input search over ufunc table x method x element '
               'differential). Every applicable (ufunc, dtype, element kind) '
               'triple is additionally enumerated for the plain call and the '
               'legacy namespace. Exploration, not proof.')
-LEVEL_NOTE = ('Trusted: NumPy (the reference is NumPy on raw arrays of the '
-              'same layout), Hypothesis, the descriptor builder. Operands '
-              'broadcast to the shape of the ODL element; `where=`, '
-              '`casting=`, `initial=` and zero-size arrays are outside the '
-              'generator.')
+LEVEL_NOTE = ('Trusted: NumPy 1.26 (the reference is NumPy on raw arrays of the '
+              'same layout and aliasing), Hypothesis, the descriptor builder. '
+              'Operands broadcast to the shape of the ODL element; `where=`, '
+              '`casting=`, `initial=`, zero-size arrays and negative-stride '
+              'out arrays (a NumPy defect) are outside the generator. Value '
+              'mismatches are re-run on a perturbed heap because NumPy\'s '
+              'SIMD/scalar kernel choice is address dependent (see '
+              'tolerances). 19 of 21 hand-made mutations of the anchored '
+              'code are detected by the quick tier, the other two are not '
+              'observable through the public API.')
 DESIGN_REF = 'DESIGN.md section 5, C17'
-BUDGET = {'quick': 10000, 'thorough': 100000}
+BUDGET = {'quick': 8000, 'thorough': 100000}
 TOLERANCES = {
     'values': 'bit-identical to the NumPy result (NaN entries compared by '
               'position only)',
@@ -90,6 +95,9 @@ ASSUMPTIONS = [
     'dtype=bool, out=int_arr) gives 0 for c = 0.01), ODL computes in a '
     'temporary of the requested dtype and casts afterwards - no caller '
     'relies on either',
+    'out arrays are C-, F-contiguous or positively strided views: NumPy '
+    '1.26.4 itself writes wrong results into negative-stride bool outputs '
+    '(np.signbit(np.zeros(24), out=np.ones(24, bool)[::-1]))',
     'if NumPy rejects the call on the raw arrays nothing is asserted about '
     'ODL (rejecting is a pass, accepting is counted in the notes)',
     'documented rejections are passes: discretized reduce(keepdims=True), '
@@ -172,7 +180,7 @@ def _one_in(draw, n):
     return draw(st.sampled_from(range(n))) == (n // 2 if n > 2 else 0)
 
 
-def _shapes(tier_big=False):
+def _shapes():
     small = vs.small_shapes(min_ndim=1, max_ndim=3, min_side=1, max_side=5,
                             max_size=40)
     big = st.sampled_from([[129], [300], [17, 9], [8, 40], [3, 5, 11],
@@ -353,8 +361,11 @@ def _out_desc(draw, ekind, kinds):
         return None
     if kind == 'tensor' and ekind != 'discr':
         kind = 'elem'
+    # no negative-stride out arrays: NumPy 1.26 itself mis-writes them
+    # (np.signbit(np.zeros(24), out=np.ones(24, bool)[::-1]) leaves 14
+    # entries True; same for isnan) - the reference must not be wrong
     od = {'kind': kind, 'order': draw(st.sampled_from(
-        ['C', 'C', 'F', 'strided', 'rev'])), 'dtype': 'match'}
+        ['C', 'C', 'F', 'strided'])), 'dtype': 'match'}
     if kind not in ('x', 'other') and _one_in(draw, 8):
         od['dtype'] = draw(st.sampled_from(
             ['float64', 'float32', 'complex128', 'int64']))
@@ -719,6 +730,37 @@ def enumerate_cases(tier):
                                          'data': _fixed_elem(sd, 4)}
                         desc['pos'] = 0
                     yield desc
+    # every axis subset (positive and negative spelling) of a 3-d and a 2-d
+    # element for reduce, every axis for accumulate
+    import itertools
+    for ekind in ('tensor', 'discr'):
+        for shape in ([2, 3, 4], [3, 3]):
+            nd = len(shape)
+            sd = _fixed_space(ekind, 'float64')
+            sd = dict(sd, shape=shape)
+            if ekind == 'discr':
+                sd.update(min=[0.0, -1.0, 2.0][:nd], max=[1.0, 2.0, 2.5][:nd],
+                          nodes_on_bdry=[[True, False]] * nd)
+            axes_opts = ['absent', None]
+            for k in range(0, nd + 1):
+                for sub in itertools.combinations(range(nd), k):
+                    axes_opts.append(list(sub))
+                    if k:
+                        axes_opts.append([a - nd for a in sub])
+                        axes_opts.append([a - nd if i % 2 else a
+                                          for i, a in enumerate(sub)][::-1])
+                    if k == 1:
+                        axes_opts += [sub[0], sub[0] - nd]
+            for name in ('add', 'maximum'):
+                for ax in axes_opts:
+                    kw = {} if ax == 'absent' else {'axis': ax}
+                    yield {'method': 'reduce', 'ekind': ekind, 'space': sd,
+                           'ufunc': name, 'x': _fixed_elem(sd), 'kwargs': kw,
+                           'out': [None]}
+                for ax in list(range(-nd, nd)):
+                    yield {'method': 'accumulate', 'ekind': ekind,
+                           'space': sd, 'ufunc': name, 'x': _fixed_elem(sd),
+                           'kwargs': {'axis': ax}, 'out': [None]}
 
 
 EXHAUSTIVE = {
@@ -728,6 +770,12 @@ EXHAUSTIVE = {
               '[, y]), x.ufuncs.<ufunc>([y])} on fixed (2, 3) data'],
     'thorough': ['same sweep over all 9 dtypes'],
 }
+for _t in EXHAUSTIVE:
+    EXHAUSTIVE[_t].append(
+        'np.add / np.maximum .reduce over every subset of axes (absent, '
+        'None, int, tuple; positive, negative and mixed spelling) and '
+        '.accumulate over every axis of a (2, 3, 4) and a (3, 3) tensor and '
+        'discretized element')
 
 
 # --------------------------------------------------------------------------
@@ -1049,9 +1097,6 @@ def _make_out(od, ekind, sd, x_op, shape, dtype, other_op=None):
 
 # --------------------------------------------------------------------------
 # the case
-
-DOCUMENTED_REJECTIONS = 'documented'
-
 
 RETRY_CLAUSES = ('|value|', '|out-value|', '|operand-modified|',
                  '|at-mutation|')
@@ -1548,6 +1593,10 @@ def _run_prodspace_legacy(desc, sig, uf, x, ops, kw):
             if not _same(ga, r, name):
                 raise Violation(sig('value'), 'part {}: {}'.format(
                     i, _diff_text(ga, r)))
+    for i, p in enumerate(parts):
+        if not _same(_cur(x[i]), _ref_array(p, desc['x'][i])):
+            raise Violation(sig('operand-modified'),
+                            'part {} of the element changed'.format(i))
     return Outcome('ok', strata=strata)
 
 
